@@ -140,6 +140,41 @@ def symbolize(nsmc, pcs):
                 _sym_cache[(nsmc, p)] = ('<-'.join(funcs) if funcs else '??', locs[0] if locs else '??')
     return {p: _sym_cache[(nsmc, p)] for p in pcs}
 
+_site_cache = {}
+def site_coverage(nsmc, site_pcs):
+    """Synchronisation call sites (atomic operations and futex calls) of each nsync source file: present in the
+    binary (from the disassembly of its t_<file> text section) vs exercised by this run (return addresses
+    recorded by the runtime's hooks)."""
+    if nsmc not in _site_cache:
+        present = {}
+        try:
+            out = subprocess.run(['objdump', '-d', '--no-show-raw-insn', nsmc], stdout=subprocess.PIPE, text=True).stdout
+            sec = None
+            prev_call = False
+            for line in out.splitlines():
+                if line.startswith('Disassembly of section '):
+                    sec = line.split('section ')[1].rstrip(':')
+                    prev_call = False
+                    continue
+                if sec is None or not sec.startswith('t_'):
+                    continue
+                m = re.match(r'\s*([0-9a-f]+):\s+(\S+)\s*(.*)', line)
+                if not m:
+                    continue
+                addr = int(m.group(1), 16)
+                if prev_call:
+                    present.setdefault(sec[2:], set()).add(addr)     # the return address = next instruction
+                prev_call = m.group(2).startswith('call') and ('__tsan_atomic32' in m.group(3) or 'mc_syscall' in m.group(3))
+        except Exception:
+            present = {}
+        _site_cache[nsmc] = present
+    present = _site_cache[nsmc]
+    out = {}
+    pcs = set(site_pcs)
+    for f, addrs in sorted(present.items()):
+        out[f] = '%d of %d' % (len(addrs & pcs), len(addrs))
+    return out
+
 def load_known_findings():
     """known_findings.txt: lines 'finding: property=<id> family=<f> func=<regex> msg=<regex> :: what'
     and 'fixed: property=<id> <commit> <what failed>' (fixed entries suppress nothing)."""
@@ -240,8 +275,11 @@ def finish(prop, tier, level, results, skipped, t0, extra_cov=None, assumptions=
         for o in r['outcomes']:
             outcomes.add((r['family'], r['program'], o))
     sites = {}
+    build_of = {}
     for r in ok:
-        sites.setdefault((r['job'].tag or r['job'].cfg), set()).update(r.get('sites', ()))
+        k = (r['job'].tag or r['job'].cfg)
+        sites.setdefault(k, set()).update(r.get('sites', ()))
+        build_of[k] = build(r['job'].cfg, r['job'].defs, r['job'].tag)
     samples = []
     for r in ok:
         if 'sample' in r and len(samples) < 6:
@@ -313,7 +351,7 @@ def finish(prop, tier, level, results, skipped, t0, extra_cov=None, assumptions=
         'executions_pruned_by_visited_state': sum(r['pruned'] for r in ok),
         'max_depth': max([r['max_depth'] for r in ok] or [0]),
         'distinct_outcomes_over_all_programs': len(outcomes),
-        'distinct_sync_call_sites_exercised': {k: len(v) for k, v in sites.items()},
+        'sync_call_sites_exercised_of_present_per_source_file': {k: site_coverage(build_of[k], v) for k, v in sites.items()},
         'budgets': sorted({'%s threads=%d P=%s E=%d%s' % (r['config'], r['threads'], 'unbounded' if r['P'] >= 99 else r['P'], r['E'], ' stateless+hb' if r['hb'] else '') for r in ok}),
         'exhaustive': exhaustive,
         'violating_schedules_found': total_viol,
